@@ -110,6 +110,8 @@ func defaultProxyServer(ctx context.Context, handler http.Handler, tlsConfig *tl
 	svr.MetricsRegistry = PrometheusRegistry
 
 	svr.HTTPServer.IdleTimeout = parseHTTPIdleTimeout()
+	// the HTTP2 server arms its idle timer from its own field
+	svr.HTTP2Server.IdleTimeout = parseHTTPIdleTimeout()
 	svr.HTTPServer.ReadTimeout = parseHTTPReadTimeout()
 	svr.HTTPServer.WriteTimeout = parseHTTPWriteTimeout()
 	svr.TLSHandshakeTimeout = parseTLSHandshakeTimeout()
